@@ -81,14 +81,16 @@ def install(env):
     N.FakeHost.__hash__ = lambda self: env.host_rank.get(self.name, self.port)
 
     # ---- timer tie-break: same-instant timers fire in a seeded order -------------------------------------------------
-    clock = env.clock
-    orig_callLater = clock.callLater
+    def wrap_clock(clock):
+        orig_callLater = clock.callLater
 
-    def callLater(delay, f, *a, **kw):
-        if env.jitter_rng is not None and delay > 0:
-            delay = delay + env.jitter_rng.random() * 1e-3
-        return orig_callLater(delay, f, *a, **kw)
-    clock.callLater = callLater
+        def callLater(delay, f, *a, **kw):
+            if env.jitter_rng is not None and delay > 0:
+                delay = delay + env.jitter_rng.random() * 1e-3
+            return orig_callLater(delay, f, *a, **kw)
+        clock.callLater = callLater
+    wrap_clock(env.clock)
+    env.clock_hooks.append(wrap_clock)       # net_sync gives every network a fresh clock
 
     # ---- node lock ---------------------------------------------------------------------------------------------------
     orig_get = V.virtualNode._get_global_lock
@@ -747,7 +749,7 @@ def classify(res, scn, issuer_of=None):
                       % (t["op"], t["pending_nodes"], a["foreign_releases"][:3], a["orphan_acquired"][:3], a["orphans_pending"][:3]))
     shared = shared_consumed_handles(ops)
     if shared and all(k in shared for k in hung):
-        return "D17", "operations %r name the same qubit handle and one of them consumes it (send / destructive measurement)" % (shared,)
+        return "D23", "operations %r name the same qubit handle and one of them consumes it (send / destructive measurement)" % (shared,)
     # root causes of hangs: follow waits-for edges
     if hung:
         def is_send(k):
